@@ -365,7 +365,7 @@ func maxAlive(evs []verifhook.Event) int {
 
 var schedCaseNo int
 
-const schedAccept = "accept C01=1 C02=1 C03=1 C06=1 C07=1 C13=1 C14=1"
+const schedAccept = "accept C01=1 C02=1 C03=1 C06=1 C07=1 C13=1 C14=1 C03s=1"
 
 func evalSched(d schedCase) (string, string, schedObs) {
 	schedCaseNo++
